@@ -1,0 +1,33 @@
+//go:build verif
+
+package keyvalue
+
+import (
+	"context"
+
+	"github.com/anyproto/any-sync/commonspace/object/keyvalue/keyvaluestorage"
+	"github.com/anyproto/any-sync/commonspace/object/keyvalue/kvinterfaces"
+	"github.com/anyproto/any-sync/commonspace/spacesyncproto"
+	"github.com/anyproto/any-sync/net/peer"
+)
+
+// VerifNewService wires a key-value service around an existing Storage without the
+// app container (same wiring as the package's own test fixture). Verification builds only.
+func VerifNewService(spaceId, storageId string, store keyvaluestorage.Storage) kvinterfaces.KeyValueService {
+	ctx, cancel := context.WithCancel(context.Background())
+	return &keyValueService{
+		spaceId:       spaceId,
+		storageId:     storageId,
+		limiter:       newConcurrentLimiter(),
+		ctx:           ctx,
+		cancel:        cancel,
+		clientFactory: spacesyncproto.ClientFactoryFunc(spacesyncproto.NewDRPCSpaceSyncClient),
+		defaultStore:  store,
+	}
+}
+
+// VerifSyncWithPeer runs one sync exchange (diff, push, pull) synchronously and returns its error;
+// SyncWithPeer only schedules it and reports through the log.
+func VerifSyncWithPeer(ctx context.Context, svc kvinterfaces.KeyValueService, p peer.Peer) error {
+	return svc.(*keyValueService).syncWithPeer(ctx, p)
+}
